@@ -52,6 +52,68 @@ def unconditional_in_iteration(b, info, h, blocks, bi):
     return True
 
 
+PARTIAL_ADAPTERS = ("take", "skip", "filter", "step_by", "take_while", "skip_while", "rev_take", "filter_map", "chain")
+
+
+def _zip_of(t):
+    for x in T.walk(t):
+        if x[0] == "call" and x[1] == "core::iter::traits::iterator::Iterator::zip":
+            return x
+    return None
+
+
+def _same_element(dst, src, prog):
+    """dst/src: terms of the merged destination field and the (single) source field. Accepts the zip pairing
+    (next().0.0 <- next().0.1 of one zip over both `classes` arrays) and the indexed pairing (same index term)."""
+    if src is None:
+        return False, "no single source term"
+    cd, cs = T.canon(dst), T.canon(src)
+
+    def elem(t):
+        # strip the final field (free_frames / alloc_frames)
+        return t[1] if isinstance(t, tuple) and t[0] == "f" else None
+    ed, es = elem(cd), elem(cs)
+    if ed is None or es is None:
+        return False, "unrecognised element terms"
+    # zip pairing: f(f(as(next(zip(A,B)),Some),0),K)
+    if ed[0] == "f" and es[0] == "f" and ed[1] == es[1] and ed[1][0] == "f" and ed[1][1][0] == "as":
+        z = _zip_of(ed)
+        if z is not None and {ed[2], es[2]} == {0, 1}:
+            a_dst, a_src = z[2][ed[2]], z[2][es[2]]
+
+            def classes_of(t, local):
+                has = any(isinstance(y, tuple) and y and y[0] == "f" and y[-1] == "classes" for y in T.walk(("x", t)))
+                loc = any(isinstance(y, tuple) and y and y[0] == "call" and y[1] == "llfree::local::Locals::stats" for y in T.walk(("x", t)))
+                return has and loc == local
+            return classes_of(a_src, True) and classes_of(a_dst, False), "element-wise zip of stats.classes with locals.stats().classes"
+    if ed[0] == "idx" and es[0] == "idx":
+        same = ed[2] == es[2]
+        return same, "classes[i] += local classes[j] with %s index terms" % ("identical" if same else "different")
+    return False, "destination and source elements are not paired by one zip or one index"
+
+
+def _merge_domain(src, prog):
+    if any(x[0] == "call" and x[1].split("::")[-1] in PARTIAL_ADAPTERS for x in T.walk(src)):
+        return False, "iterator is narrowed by an adapter: " + T.show(src)[:120]
+    z = _zip_of(src)
+    if z is not None:
+        whole = all(any(y[0] == "f" and y[3] == "classes" for y in T.walk(a)) and any(
+            y[0] == "call" and y[1] in ("slice::iter", "slice::iter_mut") for y in T.walk(a)) for a in z[2])
+        # nothing between the arrays and the zip may reorder or drop elements
+        plain = ("slice::iter", "slice::iter_mut", "llfree::local::Locals::stats")
+        extra = sorted({y[1] for a in z[2] for y in T.walk(a) if y[0] == "call" and y[1] not in plain and not y[1].endswith("::into_iter")})
+        if extra:
+            return False, "zip arguments are adapted by %s, which can reorder or drop classes" % ", ".join(extra)
+        return whole, "zip over both whole `classes` arrays in order"
+    # range 0..Class::LEN
+    LEN = prog.crate("llfree").const("llfree::Class::LEN")
+    for x in T.walk(src):
+        if x[0] == "agg" and "Range" in x[1] and len(x[2]) == 2:
+            lo, hi = T.const_val(x[2][0]), T.const_val(x[2][1])
+            return (lo == 0 and LEN is not None and hi == LEN), "range %s..%s (Class::LEN = %s)" % (lo, hi, LEN)
+    return False, "unrecognised iteration domain " + T.show(src)[:120]
+
+
 def run(rep, programs):
     prog = programs["core"]
     rule = "R-STATS-CONS"
@@ -172,6 +234,38 @@ def run(rep, programs):
         good = len(srcs) == 1 and srcs[0][0] == want and srcs[0][1] in (1, -1)
         rep.check(good, rule, "tree_stats|merge|%s" % dst, "%s %s= local %s" % (dst, "+" if srcs and srcs[0][1] == 1 else "-", want),
                   "merge of %s uses %s" % (dst, srcs), span)
+    # ---- (3b) the merge visits every class and adds element to corresponding element
+    mloops = loop_info(b)
+    if len(mloops) != 1:
+        rep.violation(rule, "tree_stats|merge-loop", "expected one per-class merge loop, found %d" % len(mloops), b.span)
+    else:
+        h, blocks, exits = mloops[0]
+        info = iter_loop_header(b, tm, h)
+        ok, why = exits_only_by_exhaustion(b, tm, h, blocks, exits)
+        rep.check(ok, rule, "tree_stats|merge-loop|exhaustive", "the per-class merge visits every class",
+                  "tree_stats: %s: the classes after that point keep the tree-array numbers only, so the per-class free counts no "
+                  "longer sum to the (unconditionally merged) total" % why, b.term(h)["span"])
+        inloop = [x for x in macc if x[0] in blocks]
+        rep.check(len(inloop) >= 2, rule, "tree_stats|merge-loop|accumulations", "%d per-class accumulations in the loop" % len(inloop),
+                  "the per-class merge loop has %d accumulations (free_frames and alloc_frames expected)" % len(inloop), b.term(h)["span"])
+        for bi, si, names, amt, span, p in inloop:
+            if info:
+                rep.check(unconditional_in_iteration(b, info, h, blocks, bi), rule, "tree_stats|merge-loop|%s|unconditional" % names[-1],
+                          "merged for every class", "the merge of classes[..].%s is skipped for some classes" % names[-1], span)
+            dst = tm.place(p)
+            rv = tm.rvalue(b.blocks[bi]["stmts"][si]["rv"])
+            src = None
+            if rv[0] == "bin" and rv[1].startswith("Add"):
+                others = [o for o in (rv[2], rv[3]) if T.canon(o) != T.canon(dst)]
+                src = others[0] if len(others) == 1 else None
+            pair_ok, pdesc = _same_element(dst, src, prog)
+            rep.check(pair_ok, rule, "tree_stats|merge-loop|%s|same-class" % names[-1], pdesc,
+                      "classes[..].%s is merged across different classes or the pairing cannot be established: %s" % (names[-1], pdesc), span)
+        if info:
+            src = info[0][2][0]
+            dom_ok, ddesc = _merge_domain(src, prog)
+            rep.check(dom_ok, rule, "tree_stats|merge-loop|domain", ddesc, "the merge loop does not range over all classes: " + ddesc,
+                      b.term(h)["span"])
     # ---- (4) net contribution of a reservation to Q
     sign = {dst: (srcs[0][1] if len(srcs) == 1 else None) for dst, (srcs, _) in merged.items()}
     contrib = ({}, 0)
